@@ -49,8 +49,11 @@ def worker(args):
     ring = collections.deque(maxlen=opts.get("ring", 200))      # (collection, expected denotation, label) of earlier programs
     out = replay.Outcome()
     n = seed * 7919
+    pols = ["auto", "coarse", "refine"]
+    pairs = [(a, b) for a in pols for b in pols if a != b] if opts.get("policy_pairs") else [None]
     for beh in behs:
-        for grids in replay.variants(beh, max_variants, rng):
+      for grids in replay.variants(beh, max_variants, rng):
+        for pair in pairs:
             n += 1
             out.n_programs += 1
             cfg_build, cfg_compute = config_no(n * 5 + 1), config_no(n * 11 + 3)
@@ -61,10 +64,19 @@ def worker(args):
 
             # every third program: the last operation is CONSTRUCTED under B as well (the configuration in effect at
             # construction differs between an operand and its consumer)
-            split = n % 3 == 0 and not any(a["a"] in replay.INPLACE for a in beh["prog"][-1:])
+            split = (pair is not None or n % 3 == 0) and not any(a["a"] in replay.INPLACE for a in beh["prog"][-1:])
+            if split:
+                # B differs from A in the chunk-unification policy only (what an operand advertised under A is what
+                # its consumer plans against under B); the other keys vary in the two programs out of three built whole
+                cfg_compute = dict(cfg_build)
+                if pair is not None:        # directed corpora: every ordered pair of policies
+                    cfg_build = dict(cfg_build, **{"array.unify-chunks-policy": pair[0]})
+                    cfg_compute = dict(cfg_build, **{"array.unify-chunks-policy": pair[1]})
+                else:
+                    cfg_compute["array.unify-chunks-policy"] = pols[(pols.index(cfg_build["array.unify-chunks-policy"]) + 1 + (n // 3) % 2) % 3]
             try:
                 with dask.config.set(cfg_build):
-                    replay.replay_one(beh, grids, (grab,), compute_all=False, opts={"config_last": cfg_compute} if split else {})
+                    replay.replay_one(beh, grids, (grab,), compute_all=False, opts={"config_last": cfg_compute, "touch_metadata": True} if split else {"touch_metadata": n % 2 == 0})
             except replay.SpecMismatch as ex:
                 out.machinery.append(str(ex))
                 continue
@@ -77,11 +89,26 @@ def worker(args):
             h, d = live[-1]
             exp = ctx["cur"][h]
             obs = []
+            # another collection of the same program (it shares the source and sub-trees with the last one): its value
+            # before and after the last collection is computed (computing must not change what other collections denote)
+            sib = live[0] if len(live) >= 2 and live[0][1] is not d else None
+            if sib is not None:
+                with dask.config.set(cfg_compute):
+                    sib_before = _val(sib[1])
             with dask.config.set(cfg_compute):
                 obs.append({"how": "operands-built-under-A-last-step-built-and-computed-under-B" if split
                             else "built-under-A-computed-under-B", "val": _val(d, own=True)})
             with dask.config.set(cfg_build):
                 obs.append({"how": "computed-again-under-A", "val": _val(d)})
+            if sib is not None:
+                with dask.config.set(cfg_compute):
+                    sib_after = _val(sib[1])
+                sexp = ctx["cur"][sib[0]]
+                out.events.append({"fn": "history", "expect": {"shape": sexp["shape"], "kind": sexp["kind"], "data": sexp["data"]},
+                                   "obs": [{"how": "sibling-collection-before-the-last-one-was-computed", "val": sib_before},
+                                           {"how": "sibling-collection-after-the-last-one-was-computed", "val": sib_after}],
+                                   "cfgs": [repr(cfg_build), repr(cfg_compute)],
+                                   "_ref": {"prog": beh["prog"], "env": beh["env"], "grids": [list(map(list, g)) for g in grids]}})
             # an earlier collection of this process, computed again now (after later programs were built and lowered)
             if ring and ring[(n * 13) % len(ring)][2]["first"]["kind"] != "raised":
                 oc, oexp, oref = ring[(n * 13) % len(ring)]
